@@ -218,6 +218,7 @@ type Job struct {
 	TimeoutMS int               `json:"timeout_ms,omitempty"`
 	MaxSteps  int64             `json:"max_steps,omitempty"`
 	XCheck    bool              `json:"xcheck,omitempty"`
+	Fixed     map[string]uint64 `json:"fixed,omitempty"` // inputs forced to concrete values (debugging / translator validation)
 	Prefix    []Dec             `json:"prefix"`
 	Sample    bool              `json:"sample,omitempty"`
 	Quit      bool              `json:"quit,omitempty"`
@@ -270,6 +271,7 @@ type explorer struct {
 	notes    []string
 	scripts  []string
 	params   map[string]int
+	fixed    map[string]uint64
 	nondetMap bool
 	xcheck   bool
 
@@ -329,8 +331,19 @@ func (e *explorer) inputName(name string) string {
 	return fmt.Sprintf("%s#%d", name, k)
 }
 
-func (e *explorer) fresh(name string, w int, signed bool) sym {
-	n := "|" + e.inputName(name) + "|"
+func (e *explorer) fresh(name string, w int, signed bool) value {
+	in := e.inputName(name)
+	if v, ok := e.fixed[in]; ok {
+		switch {
+		case w == 0:
+			return v != 0
+		case w == 8:
+			return byte(v)
+		default:
+			return int(int64(v))
+		}
+	}
+	n := "|" + in + "|"
 	if w == 0 {
 		e.sol.send(fmt.Sprintf("(declare-const %s Bool)", n))
 	} else {
@@ -529,6 +542,10 @@ func signExt(v uint64, s sym) int64 {
 // are feasible by construction, no solver call is needed.
 func (e *explorer) choose(name string, n int) int {
 	in := e.inputName(name)
+	if fv, ok := e.fixed[in]; ok {
+		e.choices[in] = fv
+		return int(fv)
+	}
 	var v uint64
 	if e.replaying() {
 		d := e.prefix[e.pos]
@@ -658,6 +675,7 @@ func (w *Worker) configure(job Job) (*ssa.Function, string) {
 		}
 	}
 	e.params = job.Params
+	e.fixed = job.Fixed
 	if job.TimeoutMS > 0 {
 		e.sol.timeoutMS = job.TimeoutMS
 	}
